@@ -18,6 +18,7 @@ ASSUMPTIONS = ["node iterable yields distinct hashable labels (duplicates in `no
                "the neighbour callback is a pure function of its argument; it may be called on any label it returned",
                "*_edges variants only on 0..n-1 graphs whose arcs stay inside range(n)",
                "recursion limit 20000 (worker setting); deepest generated DFS path 400"]
+QUICK_SCALE = 2.5  # quick-tier multiplier (idle 16-core timing: ~10 s at scale 1)
 STRATA = [
     ("random-small", 6000, 60000),
     ("blueprint", 6000, 60000),
